@@ -25,9 +25,14 @@ func schedCoverage(a *schedAgg, wall float64, conc bool) map[string]interface{} 
 		"aborted_runs":         a.Aborts,
 	}
 	faults := map[string]int{
-		"hook_failure_inside_operation": a.HookFired,
-		"map_order_permutation":         a.OrderDec,
+		"hook_failure_inside_operation":         a.HookFired,
+		"map_order_permutation":                 a.OrderDec,
+		"clock_jump_inside_operation":           a.Jumps,
+		"caller_edits_returned_container":       a.Scribbles,
+		"goroutines_started_by_the_library":     a.LibGo,
+		"channel_operations_inside_the_library": a.LibChan,
 	}
+	cov["library_concurrency_note"] = "goroutines, channels, timers and processor-count queries inside go-bexpr are modelled (see instrumentation.modelled_blocking_sites); the unchanged library has none, so these fault kinds fire only on changed trees"
 	if conc {
 		faults["preemption_at_change_point"] = a.ByKind[0]
 		faults["preemption_by_quantum"] = a.ByKind[1]
